@@ -3,6 +3,7 @@ package harness
 // C15: a multi-query request is all-or-error with exact counts.
 
 import (
+	"os"
 	"encoding/json"
 	"strings"
 
@@ -142,6 +143,9 @@ func checkC15(t *testing.T, c *c15Case, rec *Recorder) []Diff {
 	}
 	if o.Panic != "" || o.Deadlock != "" || o.Wire == nil {
 		rec.Case(scenarioKey(c), false, nil, append(labels, "other:crash")...)
+		if os.Getenv("VERIF_DEBUG_CRASH") != "" {
+			fmt.Fprintf(os.Stderr, "DEBUGCRASH panic=%.300q deadlock=%.600q\n", o.Panic, o.Deadlock)
+		}
 		return []Diff{{"C09", "crash", o.Panic + o.Deadlock}}
 	}
 	// which runs failed: a handle pair fails if any of its faults fired; faults are per handle index, and a
